@@ -223,9 +223,12 @@ def gen_mixed(rng, tier):
         flags.append("stayopen")
     if rng.random() < 0.3:
         flags.append("nocheckresp")
-    c.insert(0, "servers=%d flags=%s tries=%d timeout=1000" % (rng.choice([1, 2, 2, 3]), ",".join(flags), rng.choice([1, 2, 3])))
-    if rng.random() < 0.3:
+    nserv = rng.choice([1, 2, 2, 3])
+    c.insert(0, "servers=%d flags=%s tries=%d timeout=1000" % (nserv, ",".join(flags), rng.choice([1, 2, 3])))
+    if rng.random() < 0.4:
         c.append("pendingwritecb=1")
+    if rng.random() < 0.3:
+        c[0] += " rotate=1"
     ops = ["note fam=mixed"]
     T = 0
     for b in range(rng.choice([1, 2, 3])):
@@ -246,11 +249,60 @@ def gen_mixed(rng, tier):
         else:
             ops.append("rspall " + answer(rng))
         ops.extend(RUN)
-    if rng.random() < 0.3:
+    if nserv == 1 and rng.random() < 0.3:
+        # (with several servers WHICH connection carries a retry legitimately depends on when the
+        # failures were counted, so a disruption aimed at one socket is not comparable)
         ops.append("eof s0")
         ops.extend(RUN)
     ops.append("rspall " + answer(rng))
     ops.extend(RUN)
+    ops.append("rspall " + answer(rng))
+    ops.extend(RUN)
+    return " ".join(c) + "|" + ";".join(ops)
+
+
+def gen_multi(rng, tier):
+    """several servers, rotation (or a demoted first server), every query over TCP, deferred-write
+    notification: the query is queued on the established (or fast-open) TCP connection of a
+    server that sorts AFTER servers without a TCP connection; ares_process_pending_write() has to
+    reach it.  Judged by the nopw variant (same history without the callback) and by the
+    never-transmitted oracle."""
+    c = cfg_common(rng)
+    nserv = rng.choice([2, 2, 3, 4])
+    flags = ["usevc"]
+    stay = rng.random() < 0.7
+    if stay:
+        flags.append("stayopen")
+    if rng.random() < 0.5:
+        flags.append("noedns")
+    rotate = rng.random() < 0.75
+    c.insert(0, "servers=%d flags=%s tries=%d timeout=1000 rotate=%d" % (nserv, ",".join(flags), rng.choice([2, 3]), 1 if rotate else 0))
+    c.append("pendingwritecb=1")
+    if rng.random() < 0.4:
+        c.append("sockstatecb=1")
+    if rng.random() < 0.35:
+        c.append("tfo=1")
+    ops = ["note fam=multi"]
+    T = 0
+    if not rotate:
+        # demote the first server(s): their answers are SERVFAIL, the queries move on
+        T += 1
+        ops.append("send %d %s IN A rd" % (T, name(T)))
+        ops.extend(RUN)
+        ops.append("rspall rcode=%s" % rng.choice(["SERVFAIL", "REFUSED"]))
+        ops.extend(RUN)
+        ops.append("rspall " + answer(rng))
+        ops.extend(RUN)
+    for b in range(rng.choice([2, 3, 4])):
+        for _ in range(rng.choice([1, 1, 2, 3, 5])):
+            T += 1
+            ops.append("send %d %s IN %s rd" % (T, name(T), rng.choice(TYPES)))
+            if rng.random() < 0.3:
+                ops.append("flushwrites")
+        ops.append("flushwrites")
+        ops.extend(RUN)
+        ops.append("rspall " + answer(rng))
+        ops.extend(RUN)
     ops.append("rspall " + answer(rng))
     ops.extend(RUN)
     return " ".join(c) + "|" + ";".join(ops)
@@ -353,12 +405,14 @@ def gen_c20(rng, tier, n):
     out = []
     for _ in range(n):
         r = rng.random()
-        if r < 0.5:
+        if r < 0.45:
             c = gen_pure(rng, tier)
-        elif r < 0.68:
+        elif r < 0.62:
             c = gen_tc(rng, tier)
-        elif r < 0.88:
+        elif r < 0.78:
             c = gen_mixed(rng, tier)
+        elif r < 0.90:
+            c = gen_multi(rng, tier)
         else:
             c = gen_junk(rng, tier)
         if rng.random() < 0.35:
